@@ -43,7 +43,12 @@ THOROUGH_EXTRA = {  # chunk size 1 lives in its own binary
     "C05": ("c1", ("pegsim-c1", ["--only-set", "7"])),
     "C07": ("c1", ("pegsim-c1", ["--only-set", "7"])),
 }
-RUNS = {"quick": 400_000, "thorough": 16_000_000}
+RUNS = {"quick": 2_000_000, "thorough": 60_000_000}
+RUNS_BY_PROP = {  # checks with slower job kinds (I/O jobs, coverage maps, tree comparison)
+    "C07": {"quick": 800_000, "thorough": 24_000_000},
+    "C08": {"quick": 800_000, "thorough": 24_000_000},
+    "C12": {"quick": 1_500_000, "thorough": 40_000_000},
+}
 
 RULE_TEXT = (
     "a case = (runtime-wired grammar table over real PEGTL rule templates, top-level shape, input bytes, "
@@ -134,7 +139,7 @@ def main():
         if build_s is None:
             return 2
 
-    total = args.runs or RUNS[tier]
+    total = args.runs or RUNS_BY_PROP.get(prop, RUNS)[tier]
     workdir = os.path.join(os.path.dirname(BUILD), "run", f"{prop}-{tier}-{os.getpid()}")
     shutil.rmtree(workdir, ignore_errors=True)
     os.makedirs(workdir)
